@@ -30,6 +30,11 @@ fn build_sub(spec: &SubSpec, hi: usize) -> SubApp<()> {
             }
         });
     }
+    for k in &spec.cors_on {
+        if !spec.routes.is_empty() {
+            s = s.with_cors_config(&spec.routes[*k as usize % spec.routes.len()], humphrey::http::cors::Cors::wildcard());
+        }
+    }
     s
 }
 
@@ -52,6 +57,11 @@ pub fn check(c: &Case, shard: usize, ctx: Option<&Ctx>) -> Vec<Fail> {
                 let _ = stream.shutdown().await;
             }
         });
+    }
+    for k in &c.default.cors_on {
+        if !c.default.routes.is_empty() {
+            app = app.with_cors_config(&c.default.routes[*k as usize % c.default.routes.len()], humphrey::http::cors::Cors::wildcard());
+        }
     }
     for (hi, h) in c.hosts.iter().enumerate() {
         app = app.with_host(&h.host, build_sub(h, hi));
